@@ -744,6 +744,10 @@ def cases_for(tier, seed):
         (["=", ["f", "?x"], ["f", "?x"]], "equality"),
         (["<=", ["+", ["fuel-cost", "?x"], ["fuelcost", "?x"]], "4"], "inequality"),
         (["<=", ["-", ["a", "b"], ["ab"]], "0"], "inequality"),
+        # a quotient by a SUM (a denominator that is no monomial)
+        (["<=", ["/", ["f", "?x"], ["+", ["g"], "1"]], "2"], "inequality"),
+        ([">=", ["/", ["*", "2", ["f", "?x"]], ["+", ["g"], ["load_limit", "?x"]]], ["fuel-cost", "?x"]], "inequality"),
+        (["/", "1", ["+", ["f", "?x"], ["*", "2", ["g"]]]], "expression"),
         # a factor that is a SUM whose every coefficient rounds to zero at 2 (4) decimals: the product vanishes, it does not lose the factor
         (["<=", ["*", ["f", "?x"], ["+", ["*", "0.004", ["g"]], "0.001"]], "10"], "tree_method"),
         (["*", ["f", "?x"], ["+", ["*", "0.004", ["g"]], "0.001"]], "expression"),
